@@ -290,6 +290,25 @@ def check_F4(ctx, facts, cfg):
                     code_ok = True
         ctx.ob('C12.F4', cfg + '|status-frame', ser and code_ok, site(cb),
                'status is serialised with to_view_bytes and sent with a non-OK code' if ser and code_ok else 'status frame is not serialised through to_view_bytes / carries the OK code')
+        # the frame sent is the serialisation of THIS status, on every path: no path reaches the response without serialising it, and
+        # the body does not come out of a `static` (a frame cached across requests carries another request's code / message)
+        sers = [b_ for b_, t in calls if cname(t) == RK + 'to_view_bytes']
+        resp = [(b_, t) for b_, t in calls if cname(t) and re.search(r'http::response::(Response::new|Builder::body)$', cname(t))]
+        flow_cb = Flow(cb, all_calls=True)
+        from_static = []
+        for b_, t in resp:
+            back = flow_cb.backward([op_local(a) for a in t['args'] if op_local(a) is not None])
+            for _b2, _j2, s2 in cb.assigns():
+                if s2['lhs']['l'] in back:
+                    for o in rv_operands(s2['rv']):
+                        c = op_const(o)
+                        if c and c.get('static'):
+                            from_static.append(strip_generics(c['static']))
+        every = bool(sers) and bool(resp) and cb.must_pass([0], sers, [b_ for b_, t in resp])
+        ctx.ob('C12.F4', cfg + '|frame-is-this-status', every and not from_static, site(cb),
+               'every error reply carries the serialisation of the status it was asked to send' if every and not from_static else
+               'an error reply can be built without serialising the status at hand%s: the client receives another request\'s code / message' % (
+                   ' (the body comes out of the static %s)' % sorted(set(from_static)) if from_static else ''))
     si = [b for b in facts.bodies.values() if b.crate == 'datacake_rpc' and b.kind == 'coroutine' and 'RpcContext' in b.name and 'send_inner' in b.name]
     for b in si:
         grp = facts.group(facts.root_of(b))
